@@ -1,4 +1,4 @@
-(** * C04 — Relation targets stay consistent; removing a target detaches, never corrupts.  (over histories the invariant is proved for four classes - core+queries+filters (Rel2HistQ), +observers (Rel2HistO), +Reset (Rel2HistR), core+batch operations (Rel2BatchHist) - not for one class containing everything at once: partial in that sense only; see the end of the file)
+(** * C04 — Relation targets stay consistent; removing a target detaches, never corrupts.  (over histories the invariant is proved for ONE class containing core + queries + filters + registration + the five batch operations + Reset (Rel2HistAll / Rel2HistAllR: [C04_invariant_after_every_history_merged], [C04_invariant_after_every_history_merged_with_resets]) and, with observers of any callback kind AND Reset in the same class, [C04_invariant_after_every_history_merged_with_observers_and_resets_partial] (Rel2HistAllOR); the separate classes of Rel2HistQ, Rel2HistO, Rel2HistR, Rel2BatchHist are sub-classes. The one restriction left: a BATCH line on an unlocked world must run while no observer is registered (the whole-batch event passes are not simulated): partial in that sense only; see the end of the file)
 
     Proved here are the MECHANISM lemmas that keep relation targets valid, in general worlds:
     - table creation validates every relation before changing anything: a target that is neither
@@ -64,6 +64,7 @@ From Ark Require Import Model.Base Model.Mask Model.Pool Model.Util Model.World 
 From Ark Require Import Proofs.WF Proofs.StorageA Proofs.StorageBDefs Proofs.RelProofs Proofs.Rel2Defs Proofs.Rel2Struct Proofs.Rel2Remove Proofs.Rel2SetRel Proofs.Rel2Maint Proofs.StorageC Proofs.Rel2Hist Properties.Common.
 From Ark Require Import Proofs.Rel2HistQ.
 From Ark Require Import Proofs.Rel2Defs Proofs.Rel2Maint Proofs.Rel2Hist Proofs.Rel2HistQ Proofs.ObsErase Proofs.Rel2HistO Proofs.Rel2HistR Proofs.Rel2BatchHist.
+From Ark Require Import Proofs.Rel2HistAll Proofs.Rel2HistAllR Proofs.Rel2HistAllO Proofs.Rel2HistAllOR.
 
 Theorem C04_create_table_rejects_invalid : forall s aid a rels,
   nth_error (w_archs s) aid = Some a ->
@@ -363,7 +364,111 @@ Theorem C04_invariant_after_every_history_with_batches :
          r2h_total lines + 4 < 2 ^ 31 -> Inv2 (exec c lines) (r2h_total lines).
 Proof. exact reachable_inv2B. Qed.
 
-Definition C04_all := (C04_invariant_after_every_history_with_observers, C04_targets_always_zero_or_alive_with_observers, C04_remove_target_detaches_with_observers, C04_invariant_after_every_history_with_resets, C04_targets_always_zero_or_alive_with_resets, C04_remove_target_detaches_with_resets, C04_invariant_after_every_history_with_batches, C04_invariant_after_every_history_with_queries, C04_targets_always_zero_or_alive_with_queries, C04_remove_target_detaches_with_queries, C04_remove_target_rejected_when_locked, C04_invariant_after_every_history, C04_step_preserves_invariant, C04_targets_always_zero_or_alive,
+(** ** The merged class (package U): core + queries + filters + registration + batch operations (stage 1), + Reset (stage 2),
+    + observers for batch lines that run while no observer is registered (partial stage 3) *)
+
+Theorem C04_invariant_after_every_history_merged :
+  forall (c : script_cfg) (lines : list (list Z)),
+         cfg_ok2 c ->
+         Forall (rel_all_line (sc_kinds c)) lines ->
+         r2h_total lines + 4 < 2 ^ 31 -> InvAll (exec c lines) (r2h_total lines).
+Proof. exact reachable_inv_all. Qed.
+
+Theorem C04_targets_always_zero_or_alive_merged :
+  forall (c : script_cfg) (lines : list (list Z)) (e : ent) (cmp : nat) (x : ent),
+         cfg_ok2 c ->
+         Forall (rel_all_line (sc_kinds c)) lines ->
+         r2h_total lines + 4 < 2 ^ 31 ->
+         tgt (exec c lines) e cmp = Some x -> x = zero_ent \/ live (exec c lines) x = true.
+Proof. exact targets_always_zero_or_alive_all. Qed.
+
+Theorem C04_remove_target_detaches_merged :
+  forall (c : script_cfg) (lines : list (list Z)) (h : Z) (x : ent),
+         cfg_ok2 c ->
+         Forall (rel_all_line (sc_kinds c)) lines ->
+         r2h_total lines + 4 < 2 ^ 31 ->
+         let s := exec c lines in
+         is_locked s = false ->
+         handle s h = Some x ->
+         live s x = true ->
+         exists s' : W,
+           step_op (sc_debug c) (ORemoveEntity h) s = Ok [] s' /\
+           St2 s' /\
+           live s' x = false /\
+           (forall e : ent,
+            e <> x ->
+            live s' e = live s e /\
+            (forall cmp : nat, val s' e cmp = val s e cmp) /\
+            (forall cmp : nat, tgt s' e cmp = r2c_detached x (tgt s e cmp))).
+Proof. exact remove_target_detaches_all. Qed.
+
+Theorem C04_invariant_after_every_history_merged_with_resets :
+  forall (c : script_cfg) (lines : list (list Z)),
+         cfg_ok2 c ->
+         rel_allR_hist (sc_debug c) (sc_kinds c) (init_world c, 0) lines ->
+         r2h_total lines + 4 < 2 ^ 31 -> InvAllR (exec c lines) (r2h_total lines) (r2r_epoch_of c lines).
+Proof. exact reachable_inv_allR. Qed.
+
+Theorem C04_targets_always_zero_or_alive_merged_with_resets :
+  forall (c : script_cfg) (lines : list (list Z)) (e : ent) (cmp : nat) (x : ent),
+         cfg_ok2 c ->
+         rel_allR_hist (sc_debug c) (sc_kinds c) (init_world c, 0) lines ->
+         r2h_total lines + 4 < 2 ^ 31 ->
+         tgt (exec c lines) e cmp = Some x -> x = zero_ent \/ live (exec c lines) x = true.
+Proof. exact targets_always_zero_or_alive_allR. Qed.
+
+Theorem C04_remove_target_detaches_merged_with_resets :
+  forall (c : script_cfg) (lines : list (list Z)) (h : Z) (x : ent),
+         cfg_ok2 c ->
+         rel_allR_hist (sc_debug c) (sc_kinds c) (init_world c, 0) lines ->
+         r2h_total lines + 4 < 2 ^ 31 ->
+         let s := exec c lines in
+         is_locked s = false ->
+         handle s h = Some x ->
+         live s x = true ->
+         exists s' : W,
+           step_op (sc_debug c) (ORemoveEntity h) s = Ok [] s' /\
+           St2 s' /\
+           live s' x = false /\
+           (forall e : ent,
+            e <> x ->
+            live s' e = live s e /\
+            (forall cmp : nat, val s' e cmp = val s e cmp) /\
+            (forall cmp : nat, tgt s' e cmp = r2c_detached x (tgt s e cmp))).
+Proof. exact remove_target_detaches_allR. Qed.
+
+Theorem C04_invariant_after_every_history_merged_with_observers_partial :
+  forall (c : script_cfg) (lines : list (list Z)),
+         cfg_ok2 c ->
+         rel_allO_hist (sc_debug c) (sc_kinds c) (init_world c) lines ->
+         r2h_total lines + 4 < 2 ^ 31 -> InvAllO (exec c lines) (r2h_total lines).
+Proof. exact reachable_inv_allO_partial. Qed.
+
+Theorem C04_targets_always_zero_or_alive_merged_with_observers_partial :
+  forall (c : script_cfg) (lines : list (list Z)) (e : ent) (cmp : nat) (x : ent),
+         cfg_ok2 c ->
+         rel_allO_hist (sc_debug c) (sc_kinds c) (init_world c) lines ->
+         r2h_total lines + 4 < 2 ^ 31 ->
+         tgt (exec c lines) e cmp = Some x -> x = zero_ent \/ live (exec c lines) x = true.
+Proof. exact targets_always_zero_or_alive_allO_partial. Qed.
+
+Theorem C04_invariant_after_every_history_merged_with_observers_and_resets_partial :
+  forall (c : script_cfg) (lines : list (list Z)),
+         cfg_ok2 c ->
+         rel_allOR_hist (sc_debug c) (sc_kinds c) (init_world c, 0) lines ->
+         r2h_total lines + 4 < 2 ^ 31 -> InvAllOR (exec c lines) (r2h_total lines) (r2r_epoch_of c lines).
+Proof. exact reachable_inv_allOR_partial. Qed.
+
+Theorem C04_targets_always_zero_or_alive_merged_with_observers_and_resets_partial :
+  forall (c : script_cfg) (lines : list (list Z)) (e : ent) (cmp : nat) (x : ent),
+         cfg_ok2 c ->
+         rel_allOR_hist (sc_debug c) (sc_kinds c) (init_world c, 0) lines ->
+         r2h_total lines + 4 < 2 ^ 31 ->
+         tgt (exec c lines) e cmp = Some x -> x = zero_ent \/ live (exec c lines) x = true.
+Proof. exact targets_always_zero_or_alive_allOR_partial. Qed.
+
+Definition C04_all := (C04_invariant_after_every_history_merged_with_observers_and_resets_partial, C04_targets_always_zero_or_alive_merged_with_observers_and_resets_partial, C04_invariant_after_every_history_merged, C04_targets_always_zero_or_alive_merged, C04_remove_target_detaches_merged, C04_invariant_after_every_history_merged_with_resets, C04_targets_always_zero_or_alive_merged_with_resets, C04_remove_target_detaches_merged_with_resets, C04_invariant_after_every_history_merged_with_observers_partial, C04_targets_always_zero_or_alive_merged_with_observers_partial,
+  C04_invariant_after_every_history_with_observers, C04_targets_always_zero_or_alive_with_observers, C04_remove_target_detaches_with_observers, C04_invariant_after_every_history_with_resets, C04_targets_always_zero_or_alive_with_resets, C04_remove_target_detaches_with_resets, C04_invariant_after_every_history_with_batches, C04_invariant_after_every_history_with_queries, C04_targets_always_zero_or_alive_with_queries, C04_remove_target_detaches_with_queries, C04_remove_target_rejected_when_locked, C04_invariant_after_every_history, C04_step_preserves_invariant, C04_targets_always_zero_or_alive,
   C04_remove_target_detaches_history, C04_target_is_last_assigned, C04_stale_handle_rejected, C04_reset_succeeds, C04_history_examples,
   C04_targets_zero_or_alive, C04_remove_entity, C04_remove_fails_only_for_dead, C04_remove_target_detaches,
   C04_set_relations, C04_get_or_create_table, C04_create_table, C04_checker_sound, C04_relation_examples,
